@@ -106,10 +106,11 @@ def report_violation(mod, pid, v):
     print(f"[{pid}] violation class {vclass} at index {plan['header'].get('index')} - minimising "
           f"({len(plan['events'])} events)", flush=True)
     try:
-        small, v2 = kernel.minimise(mod, plan, vclass, budget_s=float(os.environ.get('VERIF_MIN_S', 45)))
+        small, v2, pre = kernel.minimise(pid, mod, plan, vclass, prefix=v.get('prefix'),
+                                         budget_s=float(os.environ.get('VERIF_MIN_S', 45)))
     except Exception as e:  # pragma: no cover
         print("HARNESS-ERROR minimiser:", repr(e), flush=True)
-        small, v2 = plan, viol
+        small, v2, pre = plan, viol, v.get('prefix') or []
     if v2 is None:
         print(f"HARNESS-NONDETERMINISM: violation {vclass} did not recur when the same plan was re-executed",
               flush=True)
@@ -118,6 +119,10 @@ def report_violation(mod, pid, v):
     path = os.path.join(OUT, 'replays', f"{pid}-{plan['header'].get('seed')}.json")
     small = dict(small)
     small['violation'] = v2
+    if pre:
+        # the violation depends on process-wide state left by earlier runs in the same process: they are part of
+        # the replay (executed first, in this order)
+        small['prefix'] = pre
     small['header'] = dict(small['header'], tree=boot.tree_id(), minimised_from=len(plan['events']),
                            hashseed=os.environ.get('PYTHONHASHSEED'))
     kernel.write_json(path, small)
@@ -128,7 +133,9 @@ def report_violation(mod, pid, v):
         print(f"HARNESS-NONDETERMINISM: replay of {path} in a fresh interpreter exited {r.returncode}, expected 1\n"
               f"{r.stdout[-500:]}\n{r.stderr[-500:]}", flush=True)
         return None
-    print(f"[{pid}] minimised to {len(small['events'])} events: {v2['message'][:400]}", flush=True)
+    print(f"[{pid}] minimised to {len(small['events'])} events" +
+          (f" after {len(pre)} preceding run(s) in the same process" if pre else "") +
+          f": {v2['message'][:400]}", flush=True)
     return path
 
 
@@ -179,6 +186,8 @@ def cmd_replay(args):
     if not mod.clean_start():
         print("HARNESS-ERROR: process-wide state dirty at start")
         return 2
+    for pre in plan.get('prefix', []):
+        mod.execute(pre)
     out = mod.execute(plan)
     want = plan.get('violation')
     if out.violation is None:
